@@ -339,6 +339,23 @@ inductive Op (α : Type) where
   | insertPotentialDensity : Op α
   | insertBuoyancyFrequency : Op α
 
+/-- the 50 rows `extend_profile_deeper(z_new)` appends (l.367-390, 395): depths `linspace(z_max, z_new, 50)`, every
+    variable held at its value at `z_max` (read through the CACHE), salinity linear from its value there to the
+    `fsolve` result `S1`, pressure integrated downward with `compute_pressure(…, 0)` -/
+def extendRows (ρ : α → α → α → α) (zt : Ztsp) (p : Profile α) (znew S1 : α) : List (List α) :=
+  let names := p.names
+  let z0 := p.zmax
+  let y0 := p.get1 z0 names                           -- l.370 (cache)
+  let iT := names.idxOf zt.t
+  let iS := names.idxOf zt.s
+  let iP := names.idxOf zt.p
+  let zs := linspace z0 znew 50                        -- l.376
+  let S0 := y0.getD iS 0
+  let Se := zs.map (fun z => (S1 - S0) / (znew - z0) * (z - z0) + S0)   -- l.383-384
+  let Te := zs.map (fun _ => y0.getD iT 0)
+  let Pe := (computePressure ρ zs Te Se false).getD []                   -- l.389
+  List.zipWith (fun z sp => z :: ((y0.set iS sp.1).set iP sp.2)) zs (List.zip Se Pe)
+
 /-- one operation, as the code performs it (including whether `_build_interpolator` runs) -/
 def step (ρ : α → α → α → α) (zt : Ztsp) (p : Profile α) : Op α → Profile α
   | .append data zcol vars =>
@@ -355,20 +372,8 @@ def step (ρ : α → α → α → α) (zt : Ztsp) (p : Profile α) : Op α →
     -- l.303
     p2.rebuild
   | .extendDeeper znew S1 =>
-    let names := p.names
-    let z0 := p.zmax
-    let y0 := p.get1 z0 names                           -- l.370 (cache)
-    let iT := names.idxOf zt.t
-    let iS := names.idxOf zt.s
-    let iP := names.idxOf zt.p
-    let zs := linspace z0 znew 50                        -- l.376
-    let S0 := y0.getD iS 0
-    let Se := zs.map (fun z => (S1 - S0) / (znew - z0) * (z - z0) + S0)   -- l.383-384
-    let Te := zs.map (fun _ => y0.getD iT 0)
-    let Pe := (computePressure ρ zs Te Se false).getD []                   -- l.389
-    let newRows := List.zipWith (fun z sp => z :: ((y0.set iS sp.1).set iP sp.2)) zs (List.zip Se Pe)
-    let rows := p.rows.dropLast ++ newRows               -- l.396
-    ({ p with rows := rows, zmax := znew } : Profile α).rebuild            -- l.397-402
+    -- l.393-402: all stored rows but the last, then the 50 new rows; z_max updated; interpolator rebuilt
+    ({ p with rows := p.rows.dropLast ++ extendRows ρ zt p znew S1, zmax := znew } : Profile α).rebuild
   | .insertDensity (some q) =>
     -- `if P0:` / `if not P0:` are Python truthiness tests: P0 = 0.0 behaves like P0 = None
     if q ≤ 0 ∧ 0 ≤ q then ((p.setCol "density" (densityColumn ρ p none))).rebuild
